@@ -409,6 +409,11 @@ class Lexer(object):
         if (self.cur_token and
                 self.cur_token.type not in DIVISION_SYNTAX_MARKERS):
             self.cur_token_real = self.cur_token
+            # a reserved word after a dot is a property name (section
+            # 11.2.1), not the keyword of a statement
+            self.cur_token.is_property_name = (
+                self.prev_token is not None and
+                self.prev_token.type == 'PERIOD')
 
     def _is_prev_token_lt(self, token):
         return getattr(token, 'after_line_terminator', False)
@@ -449,7 +454,9 @@ class Lexer(object):
                 # the parentheses are marked.  Otherwise just push
                 # into the inner marker list.
                 if (self.prev_token and
-                        self.prev_token.type in IMPLIED_BLOCK_IDENTIFIER):
+                        self.prev_token.type in IMPLIED_BLOCK_IDENTIFIER and
+                        not getattr(
+                            self.prev_token, 'is_property_name', False)):
                     self.token_stack.append([self.cur_token, []])
                 else:
                     self.token_stack[-1][1].append(self.cur_token)
